@@ -1268,6 +1268,77 @@ def gen_out_case(r, tier):
     return {"kind": "out", "R": R, "biases": biases, "it0": it0, "events": events}
 
 
+
+# ------------------------------------------------------------------ label text (names of any length)
+LABEL_PREFIXES = ["r_", "v_", "vr_", "Ep_", "Ek_", "ft_", "fa_", "x0_", "ref_", "Grad_", "E_", "W_"]
+
+
+def label_scenario(c, k):
+    L = ["echo CASE %d" % k, "natoms 4", "temperature 300", "dt 1.0", "prefix c%ds0" % k, "new"]
+    conf = ["colvarsTrajFrequency 1"]
+    for i, nm in enumerate(c["names"]):
+        conf += ["colvar {", "  name %s" % nm, "  outputVelocity on", "  outputAppliedForce on", "  distanceZ {", "    main { atomNumbers %d }" % (2 * i + 1),
+                 "    ref { dummyAtom (0,0,0) }", "    axis (0,0,1)", "  }", "}"]
+    conf += ["harmonic {", "  name %s" % c["bname"], "  colvars %s" % c["names"][0], "  centers 0.5", "  forceConstant 1.0", "  outputEnergy on", "  outputCenters on", "}"]
+    L += heredoc(conf) + ["show atomf 0 cv 0 bias 0 energy 0", "pos 1 0 0 1.0", "pos 3 0 0 2.0", "step", "pos 1 0 0 1.5", "step", "flush", "echo END %d" % k]
+    return L
+
+
+def check_label_case(run, c, k, impl_lines, scratch, model):
+    replay = {"kind": "label", "case": c}
+    if any(l.startswith("CONFIG err=") and "err=ok" not in l for l in impl_lines):
+        run.mismatch("label-run", c, [l for l in impl_lines if "err=" in l][:4], "configuration succeeds")
+        return 0
+    flines = parse_traj(os.path.join(scratch, "c%ds0.colvars.traj" % k))
+    labs = [l[1] for l in flines if l[0] == "L"]
+    if not labs:
+        run.mismatch("label-run", c, "no label line", "one label line")
+        return 0
+    lab = labs[0]
+    # columns in order, as (prefix, name, width): the structure is that of the model's label list for this configuration
+    cols = []
+    for nm in c["names"]:
+        cols += [("", nm, 21), ("v_", nm, 21), ("fa_", nm, 21)]
+    cols += [("E_", c["bname"], 21), ("x0_", c["names"][0], 21)]
+    rc, mout, err = V.run_lines(model, ["LABEL %d %s %s" % (w, p or "-", n) for p, n, w in cols])
+    if rc != 0 or len(mout) != len(cols):
+        run.mismatch("label-model", c, err[-300:], mout[:3])
+        return 0
+    if lab != mout:
+        run.mismatch("labeltext", c, lab, mout)
+    # oracle: a reader must be able to tell which column is which
+    run.dist("oracle:label-text")
+    full = [p + n for p, n, w in cols]
+    if len(set(lab)) != len(lab):
+        dup = [t for t in lab if lab.count(t) > 1][0]
+        run.violation("trajlabels:duplicate-label", "the label line %s announces two columns as %r (names %s, bias %s)" % (lab, dup, c["names"], c["bname"]), replay)
+    elif lab != full:
+        bad = [(a, b) for a, b in zip(lab, full) if a != b][0]
+        run.violation("trajlabels:name-truncated", "label %r stands for the column %r (names are cut to the column width)" % bad, replay)
+    return len(lab)
+
+
+def gen_label_case(r, tier):
+    def nm(n):
+        return "".join(r.choice("abcdefghijklmnopqrstuvwxyz") for _ in range(n))
+    kind = r.choice(["short", "short", "exact", "long", "samehead", "prefixclash"])
+    if kind == "short":
+        names = [nm(r.randint(1, 12)), nm(r.randint(1, 12))]
+    elif kind == "exact":
+        names = [nm(18), nm(17)]          # fa_ + 18 = 21: just fits everywhere
+    elif kind == "long":
+        names = [nm(r.randint(19, 26)), nm(r.randint(3, 8))]
+    elif kind == "samehead":
+        h = nm(21)
+        names = [h + "1", h + "2"]
+    else:
+        a = nm(4)
+        names = [a, "v_" + a]
+    if names[0] == names[1]:
+        names[1] += "x"
+    return {"kind": "label", "names": names, "bname": nm(r.choice([3, 19, 24]))}
+
+
 # ------------------------------------------------------------------ correlation function cases
 def acf_scenario(c, k):
     ty = c["vtype"]
@@ -1519,8 +1590,8 @@ def corpus_cases():
     return cs
 
 
-SCEN = {"traj": traj_scenario, "runave": runave_scenario, "acf": acf_scenario, "runavev": runavev_scenario, "out": out_scenario}
-CHECK = {"traj": check_traj_case, "runave": check_runave_case, "acf": check_acf_case, "runavev": check_runavev_case, "out": check_out_case}
+SCEN = {"traj": traj_scenario, "runave": runave_scenario, "acf": acf_scenario, "runavev": runavev_scenario, "out": out_scenario, "label": label_scenario}
+CHECK = {"traj": check_traj_case, "runave": check_runave_case, "acf": check_acf_case, "runavev": check_runavev_case, "out": check_out_case, "label": check_label_case}
 
 
 def run_cases(run, cases, unit, model, scratch):
@@ -1551,7 +1622,7 @@ def run_cases(run, cases, unit, model, scratch):
             break
         n = CHECK[c["kind"]](run, c, k, p["lines"], scratch, model)
         total += n
-        key = json.dumps({kk: vv for kk, vv in c.items() if kk != "events"}, sort_keys=True) + "|%d" % len(c["events"])
+        key = json.dumps({kk: vv for kk, vv in c.items() if kk != "events"}, sort_keys=True) + "|%d" % len(c.get("events", []))
         run.count(key, n > 0)
         run.dist(c["kind"])
         if c["kind"] == "traj":
@@ -1561,13 +1632,15 @@ def run_cases(run, cases, unit, model, scratch):
                     run.dist("traj:event:" + e[0])
         elif c["kind"] == "runave":
             run.dist("runave:L=%d,stride=%d" % (c["L"], c["stride"]))
+        elif c["kind"] == "label":
+            run.dist("label")
         elif c["kind"] == "out":
             run.dist("out:R=%d" % c["R"])
         elif c["kind"] == "runavev":
             run.dist("runavev:%s:start%s" % (c["vtype"], "=0" if c["t0"] == 0 else (":on-grid" if c["t0"] % c["stride"] == 0 else ":off-grid")))
         else:
             run.dist("acf:%s%s%s" % (c["type"], ":cross" if c["cross"] else "", ":offset" if c["off"] else ""))
-        run.sample({"kind": c["kind"], "case": {kk: vv for kk, vv in c.items() if kk != "events"}, "n_events": len(c["events"]), "compared_values": n})
+        run.sample({"kind": c["kind"], "case": {kk: vv for kk, vv in c.items() if kk != "events"}, "n_events": len(c.get("events", [])), "compared_values": n})
     return total
 
 
@@ -1605,6 +1678,8 @@ def check(run):
         cases.append(gen_runavev_case(r, run.tier))
     for _ in range(60 * mult):
         cases.append(gen_out_case(r, run.tier))
+    for _ in range(30 * mult):
+        cases.append(gen_label_case(r, run.tier))
     total = run_cases(run, cases, unit, model, scratch)
     run.cov["rule"] = ("a case is one scenario (trajectory / running average / correlation function) driven through the engine "
                        "simulator; distinct = distinct configuration+length; nontrivial = at least one written number was compared")
